@@ -51,7 +51,7 @@ type c19Case struct {
 }
 
 var hostileFields = []string{"RegionOffset", "RegionSize", "FileFilterSize", "RowDataOffset", "RowDataSize", "BloomFilterOffset", "BloomFilterSize"}
-var hostileValues = []string{"-1", "0", "1", "cur-1", "cur+1", "size-1", "size", "size+1", "2^31", "2^31-1", "2^32", "2^40", "maxint64", "maxint64-cur", "maxint64-cur+1", "minint64", "-2^40", "cur*2", "region", "regionend", "metastart"}
+var hostileValues = []string{"-2^52", "-size", "2^48", "2^51", "-1", "0", "1", "cur-1", "cur+1", "size-1", "size", "size+1", "2^31", "2^31-1", "2^32", "2^40", "maxint64", "maxint64-cur", "maxint64-cur+1", "minint64", "-2^40", "cur*2", "region", "regionend", "metastart"}
 
 func genC19() *rapid.Generator[c19Case] {
 	return rapid.Custom(func(t *rapid.T) c19Case {
@@ -66,6 +66,15 @@ func genC19() *rapid.Generator[c19Case] {
 			k := rapid.IntRange(1, 2).Draw(t, "nhostile")
 			for i := 0; i < k; i++ {
 				c.Hostile = append(c.Hostile, Hostile{Field: pick(t, "hfield", hostileFields), Block: unif(t, "hblock", 3), Value: pick(t, "hvalue", hostileValues)})
+			}
+			if chance(t, "widen", 35) {
+				// two fields that only do harm together: a negative section size that
+				// moves a derived limit past the end of the file, and an extent that
+				// only that widened limit lets through
+				c.Hostile = []Hostile{
+					{Field: pick(t, "wfield", []string{"FileFilterSize", "FileFilterSize", "RegionSize", "BloomFilterSize"}), Block: unif(t, "wblock", 3), Value: pick(t, "wneg", []string{"-2^52", "-2^40", "-size", "-1", "minint64"})},
+					{Field: pick(t, "wfield2", []string{"RegionOffset", "RowDataSize", "RowDataOffset", "BloomFilterOffset", "RegionSize"}), Block: unif(t, "wblock2", 3), Value: pick(t, "wbig", []string{"2^51", "2^48", "2^40", "2^32", "size+1", "cur*2"})},
+				}
 			}
 			c.Mode = "helpers+fs" // hostile metadata is only meaningful where the file's own metadata is used
 			return c
@@ -262,6 +271,14 @@ func hostileValue(sym string, cur, size, region, regionEnd, metaStart int) int {
 		return math.MaxInt64 - cur + 1
 	case "minint64":
 		return math.MinInt64
+	case "-2^52":
+		return -(1 << 52)
+	case "-size":
+		return -size
+	case "2^48":
+		return 1 << 48
+	case "2^51":
+		return 1 << 51
 	case "-2^40":
 		return -(1 << 40)
 	case "cur*2":
